@@ -14,7 +14,7 @@ git apply "$D/patch.diff" || { echo "patch: APPLY-FAILED"; exit 3; }
 if go build ./... >/tmp/$$.b.out 2>&1; then echo "build-with-patch: OK"; else echo "build-with-patch: FAIL"; tail -3 /tmp/$$.b.out; fi
 # the suite without the demo file(s)
 find . -name 'zz_demo*_test.go' -exec mv {} {}.off \;
-if go test -count=1 ./... >/tmp/$$.s.out 2>&1; then echo "suite-with-patch: PASS"; else echo "suite-with-patch: FAIL"; grep -v "^ok\|no test files" /tmp/$$.s.out | head -5; fi
+if go test -vet=off -count=1 ./... >/tmp/$$.s.out 2>&1; then echo "suite-with-patch: PASS"; else echo "suite-with-patch: FAIL"; grep -v "^ok\|no test files" /tmp/$$.s.out | head -5; fi
 find . -name 'zz_demo*_test.go.off' | while read f; do mv "$f" "${f%.off}"; done
 if "$@" >/tmp/$$.m.out 2>&1; then echo "demo-with-patch: PASS (mutant not demonstrated)"; else echo "demo-with-patch: FAIL (as required)"; grep -m3 -- "--- FAIL\|panic\|FAIL" /tmp/$$.m.out | head -3; fi
 rm -f /tmp/$$.*.out
